@@ -2,7 +2,7 @@
 """Regenerates MANIFEST.json from the table below (kept valid at all times)."""
 import json, os
 V = os.path.dirname(os.path.dirname(os.path.abspath(__file__)))
-TB = "Trusted: clang 14 front end and constant evaluator, tools/dsx exporter, the facts normaliser vlib/normalize.py, rules/*.py, reviewed spec/*.json tables. Zero-expected hazard lints (rules/hazard_lints.py: narrowed arguments, float limits min(), engine in loop, use after move, unsigned bounds, parallel copies, twin initialisers) run on every family with their reviewed instances in spec/hazards.json. Only instantiations present in drivers/ are analysed. "
+TB = "Trusted: clang 14 front end and constant evaluator, tools/dsx exporter, the facts normaliser vlib/normalize.py, rules/*.py, reviewed spec/*.json tables. Zero-expected hazard lints (rules/hazard_lints.py: narrowed arguments, float limits min(), engine in loop, use after move, unsigned bounds, parallel copies, twin initialisers, stale cursors, narrow accumulate, swapped deallocation, unused parameters) run on every family with their reviewed instances in spec/hazards.json. Only instantiations present in drivers/ are analysed. "
 CLAIMED = {
  "C09": ("other", "Static sibling-agreement rules over every serializer in the typed AST: exact bit-provenance interpretation of all 63 pack/unpack pairs (exhaustive over bits), header_size_bytes honoured by every byte writer. Structural necessary conditions of the round trip, decided for all inputs; observational equality of restored sketches is not decided.",
          "Not decided: equality of the restored sketch, continuing updates.", "static analysis: abstract interpretation (bit provenance) + AST shape rules over the template-instantiated clang AST", "section 5 C09, section 4 A4"),
